@@ -1,19 +1,10 @@
+import Gengo.Model.Loader
 /-!
 C13 `methods_exact`: methods are grouped under the receiver's `*types.Named`.  For a generic type
 the receiver of `func (G[T]) M()` is an *instantiated* named type — a different object than the
 declared (origin) type.  `byOrigin = false`: pinned grouping; `true`: repaired (`Origin()`).
 -/
 namespace Gengo.Methods
-
-structure Method where
-  name : List Char
-  recvOrigin : Nat          -- identity of the declared type the method belongs to
-  recvObject : Nat          -- identity of the receiver's *types.Named as written (= origin unless generic)
-  ptrRecv : Bool
-deriving DecidableEq
-
-def methodsOf (byOrigin : Bool) (ms : List Method) (t : Nat) (canPtr : Bool) : List Method :=
-  ms.filter fun m => (if byOrigin then m.recvOrigin else m.recvObject) == t && (canPtr || !m.ptrRecv)
 
 /-- repaired grouping: exactly the declared methods of `T`, resp. those with value receivers,
     in declaration order — generic or not -/
